@@ -7,7 +7,7 @@
 //!   parsed trees; all ids interned to small numbers, 0 = null id);
 //! * the tokens after `|` are the raw store the REAL `check(read_data)` and the real read-back run on.
 //! `exec` recomputes the abstraction from the raw store (so a generator bug cannot hide) and prints
-//!   `errs=<sorted Error-level finding kinds|none|cmd-err> restore=<ok|bad>`
+//!   `errs=<sorted Error-level finding kinds|none|cmd-err> restore=<ok|bad|->`   (`-` when errs != none)
 //! or `oracle-fail:silent:<label-class>` when check is silent although a snapshot does not read back.
 //! The store bytes depend on random nonces, so generated lines differ between runs; every line is
 //! self-contained and replays exactly.
@@ -466,6 +466,13 @@ pub fn exec(toks: &[&str]) -> String {
             };
             return format!("ambig errs={e1}");
         }
+        // The restore verdict is compared with the model's only when check is clean: the model's verdict is the
+        // *authentic* restore (every blob read hashes to its id), the real read-back compares content, and reported
+        // damage can leave the content intact (two tree packs of identical layout exchanged on a path of even depth
+        // cancel out). With errs = none the two coincide (theorem restore side: check_sound).
+        if errs != "none" {
+            return format!("errs={errs} restore=-");
+        }
         format!("errs={errs} restore={}", if ok { "ok" } else { "bad" })
     });
     if out == "oracle-fail:silent" {
@@ -861,7 +868,7 @@ pub fn line(label: &str, key: &MasterKey, store: &Store, expected: &BTreeMap<Str
 }
 
 pub fn generate(thorough: bool, rng: &mut Rng, ops: &mut Vec<String>, stats: &mut Stats) {
-    let n_repos = if thorough { 24 } else { 5 };
+    let n_repos = if thorough { 60 } else { 5 };
     let per_repo_cap = if thorough { 300 } else { 110 };
     for r in 0..n_repos {
         // the first repository of every run is the stdin-style one (packs holding only a root tree)
